@@ -375,6 +375,9 @@ def build(S):
         S.contract("profiles[extrapolate,psi decreasing]", FN_INIT, run_extrapolate(False), shape="4 profile points")
         S.contract("profiles[sign/2pi preprocessing]", FN_INIT, run_preprocess, shape="3 profile points, 2x2 psi")
         S.contract("fpol/fpolprime/pressure/Bt_axis", FN_FPP, run_profiles, shape="scalar")
+        from . import C03_circular
+
+        C03_circular.add(S)
 
 
 def post(S):
